@@ -26,7 +26,7 @@ type fence struct {
 	sink     string // chan | hook | live
 	key      string
 	cmd      string // nearby | within | intersects
-	area     verifapi.Area
+	area     verifapi.FenceArea
 	detect   []string // nil = no DETECT clause
 	where    *[2]float64
 	match    string
@@ -40,6 +40,14 @@ type obj struct {
 	lat, lon float64
 	speed    float64
 	str      bool
+	half     float64 // > 0: a rectangle object SET ... BOUNDS lat-half lon-half lat+half lon+half
+}
+
+func (o *obj) spec() verifapi.FenceObj {
+	if o.half > 0 {
+		return verifapi.FenceObj{Kind: "bounds", MinLat: o.lat - o.half, MinLon: o.lon - o.half, MaxLat: o.lat + o.half, MaxLon: o.lon + o.half}
+	}
+	return verifapi.FenceObj{Kind: "point", Lat: o.lat, Lon: o.lon}
 }
 
 type write struct {
@@ -89,7 +97,7 @@ func (f *fence) detects(k string) bool {
 }
 
 func (f *fence) areaRectOrd() string {
-	a, b, c, d := verifapi.AreaRect(f.area)
+	a, b, c, d := verifapi.FenceAreaRect(f.area)
 	return ord(a) + "," + ord(b) + "," + ord(c) + "," + ord(d)
 }
 
@@ -132,7 +140,7 @@ func (f *fence) sp(o *obj) bool {
 	if o == nil || o.str {
 		return false
 	}
-	return verifapi.FenceHit(f.cmd, f.area, o.lat, o.lon)
+	return verifapi.FenceHitObj(f.cmd, f.area, o.spec())
 }
 
 func (f *fence) flt(o *obj) bool {
@@ -202,7 +210,9 @@ func abstract(f *fence, w write) acase {
 	c.glob = f.match == "" || func() bool { ok, _ := verifapi.GlobMatch(f.match, w.id); return ok }()
 	spatial := !w.o.str
 	if w.old != nil && !w.old.str && !w.o.str && w.kind == "set" {
-		c.cross = verifapi.FenceCross(f.area, w.old.lat, w.old.lon, w.o.lat, w.o.lon)
+		la1, lo1 := verifapi.FenceObjCenter(w.old.spec())
+		la2, lo2 := verifapi.FenceObjCenter(w.o.spec())
+		c.cross = verifapi.FenceCross(f.area, la1, lo1, la2, lo2)
 	}
 	c.guardOK = c.glob && spatial && !(c.cmd == "fset" && f.nofields) && !f.count && f.accepts(c.cmd)
 	c.req = []string{"fm", model.B(f.accepts(c.cmd)), f.dbits(), mcmd, objT, c.oldT, model.B(c.glob), model.B(spatial),
@@ -327,7 +337,7 @@ func runC05(r *hx.Result, cfg hx.Config) {
 	// Go doc oracle vs Coq doc_msgs over the whole abstract domain (the two statements of the rule agree)
 	e.docAgreement()
 
-	rounds := 6
+	rounds := 9
 	if cfg.Tier == "thorough" {
 		rounds = 60
 	}
@@ -388,7 +398,7 @@ type roundState struct {
 	hookExp map[string][]string
 	nOther  int
 	label   string
-	main    verifapi.Area
+	main    verifapi.FenceArea
 	size    float64 // half-extent of the main area in degrees
 }
 
@@ -431,13 +441,13 @@ func (e *env) round(n, nOther int) {
 		lon0 = -lon0
 	}
 	lat0, lon0 = math.Round(lat0*1e4)/1e4, math.Round(lon0*1e4)/1e4
-	mainCmd := []string{"nearby", "within", "intersects"}[n%3]
+	mainCmd := []string{"nearby", "within", "intersects"}[(n/3)%3]
 	st.size = 0.01
 	if mainCmd == "nearby" || rng.Intn(2) == 0 {
-		st.main = verifapi.Area{Kind: "circle", Lat: lat0, Lon: lon0, Meters: 1000}
+		st.main = verifapi.FenceArea{Kind: "circle", Lat: lat0, Lon: lon0, Meters: 1000}
 		st.size = 0.009
 	} else {
-		st.main = verifapi.Area{Kind: "bounds", MinLat: lat0 - 0.01, MinLon: lon0 - 0.01, MaxLat: lat0 + 0.01, MaxLon: lon0 + 0.01}
+		st.main = verifapi.FenceArea{Kind: "bounds", MinLat: lat0 - 0.01, MinLon: lon0 - 0.01, MaxLat: lat0 + 0.01, MaxLon: lon0 + 0.01}
 	}
 	add := func(f *fence) {
 		f.key = st.key
@@ -486,10 +496,10 @@ func (e *env) round(n, nOther int) {
 		clat, clon := lat0+dlat, lon0+dlon
 		if rng.Intn(2) == 0 {
 			f.cmd = "nearby"
-			f.area = verifapi.Area{Kind: "circle", Lat: clat, Lon: clon, Meters: math.Round(sz * 111000)}
+			f.area = verifapi.FenceArea{Kind: "circle", Lat: clat, Lon: clon, Meters: math.Round(sz * 111000)}
 		} else {
 			f.cmd = []string{"within", "intersects"}[rng.Intn(2)]
-			f.area = verifapi.Area{Kind: "bounds", MinLat: clat - sz, MinLon: clon - sz, MaxLat: clat + sz, MaxLon: clon + sz}
+			f.area = verifapi.FenceArea{Kind: "bounds", MinLat: clat - sz, MinLon: clon - sz, MaxLat: clat + sz, MaxLon: clon + sz}
 		}
 		if i%5 == 4 {
 			f.where = &[2]float64{1, 50}
@@ -534,6 +544,18 @@ func (e *env) round(n, nOther int) {
 	}
 	for _, x := range st.sub.Errs {
 		e.r.Fail(hx.Failure{Kind: "oracle", Signature: "fence-fields", What: x, Case: st.label})
+	}
+	if n%3 == 1 {
+		// a channel with an expiry: present right away, gone (like DELCHAN) shortly after it is due
+		f := &fence{name: st.key + "-ttl", sink: "chan", key: st.key, cmd: "nearby", area: verifapi.FenceArea{Kind: "circle", Lat: 1, Lon: 1, Meters: 500}, role: "other-far"}
+		v := st.c.MustDo(append([]string{"SETCHAN", f.name, "EX", "0.3"}, f.args()...)...)
+		if v.IsErr() {
+			panic("SETCHAN EX refused: " + v.String())
+		}
+		e.drv.Ask("reg_set", model.H(f.name), "1", model.H(f.key), f.dbits(), f.areaRectOrd(), "1", "0")
+		e.registryCheck(st)
+		time.Sleep(700 * time.Millisecond)
+		e.drv.Ask("reg_del", model.H(f.name), "1")
 	}
 	e.registryCheck(st)
 }
@@ -678,12 +700,22 @@ func (e *env) script(st *roundState) {
 	rng := e.rng
 	set := func(id string, lat, lon, speed float64, label string) {
 		o := obj{lat: lat, lon: lon, speed: speed}
+		switch id { // two rectangle objects: one smaller than the main area, one larger
+		case "t8":
+			o.half = 0.4 * st.size
+		case "r7":
+			o.half = 1.6 * st.size
+		}
 		var old *obj
 		if p, ok := st.objs[id]; ok {
 			q := p
 			old = &q
 		}
-		v := st.c.MustDo("SET", st.key, id, "FIELD", "speed", ff(speed), "POINT", ff(lat), ff(lon))
+		geom := []string{"POINT", ff(lat), ff(lon)}
+		if o.half > 0 {
+			geom = []string{"BOUNDS", ff(lat - o.half), ff(lon - o.half), ff(lat + o.half), ff(lon + o.half)}
+		}
+		v := st.c.MustDo(append([]string{"SET", st.key, id, "FIELD", "speed", ff(speed)}, geom...)...)
 		if v.IsErr() {
 			panic("SET refused: " + v.String())
 		}
@@ -761,7 +793,7 @@ func (e *env) script(st *roundState) {
 	if e.cfg.Tier == "thorough" || e.cfg.Search {
 		nrand = 80
 	}
-	ids := []string{"t1", "t3", "t4", "v6", "u7", "t8"}
+	ids := []string{"t1", "t3", "t4", "v6", "u7", "t8", "r7", "t8", "r7"}
 	for i := 0; i < nrand; i++ {
 		id := ids[rng.Intn(len(ids))]
 		_, exists := st.objs[id]
@@ -907,7 +939,8 @@ func rectOf(o *obj) string {
 		z := ord(0)
 		return z + "," + z + "," + z + "," + z
 	}
-	return ord(o.lon) + "," + ord(o.lat) + "," + ord(o.lon) + "," + ord(o.lat)
+	a, b, c, d := verifapi.FenceObjRect(o.spec())
+	return ord(a) + "," + ord(b) + "," + ord(c) + "," + ord(d)
 }
 
 func (e *env) check(st *roundState, w write, msgs []fencex.Msg, live map[string][]fencex.Msg) {
@@ -1020,7 +1053,11 @@ func (e *env) check(st *roundState, w write, msgs []fencex.Msg, live map[string]
 			}
 			if bad == "" && (c.cmd == "set" || c.cmd == "fset" || c.cmd == "expire") {
 				lat, lon, ok := fencex.PointCoords(m.Object)
-				if !ok || lat != w.o.lat || lon != w.o.lon {
+				if w.o.half > 0 {
+					if !strings.Contains(string(m.Object), `"Polygon"`) || !strings.Contains(string(m.Object), ff(w.o.lat-w.o.half)) {
+						bad = "object is not the current rectangle"
+					}
+				} else if !ok || lat != w.o.lat || lon != w.o.lon {
 					bad = "object is not the current position"
 				}
 				wantFields := fmt.Sprintf(`{"speed":%s}`, ff(w.o.speed))
@@ -1048,6 +1085,9 @@ func describeWrite(key string, w write) string {
 	switch w.kind {
 	case "set":
 		s := fmt.Sprintf("SET %s %s FIELD speed %s POINT %s %s", key, w.id, ff(w.o.speed), ff(w.o.lat), ff(w.o.lon))
+		if w.o.half > 0 {
+			s = fmt.Sprintf("SET %s %s FIELD speed %s BOUNDS %s %s %s %s", key, w.id, ff(w.o.speed), ff(w.o.lat-w.o.half), ff(w.o.lon-w.o.half), ff(w.o.lat+w.o.half), ff(w.o.lon+w.o.half))
+		}
 		if w.old != nil {
 			s += fmt.Sprintf(" (previous: speed %s POINT %s %s)", ff(w.old.speed), ff(w.old.lat), ff(w.old.lon))
 		}
